@@ -322,12 +322,17 @@ static void *volatile vx_fault_addr;
 
 #define VX_FAULT_ASSERT 1
 
+/* set by engines that run the code under test on other stacks (vsched): called
+ * with the fault already described in vx_fault_kind / vx_fault_msg; must not return */
+static void (*vx_fault_hook)(void);
+
 /* librfn's assert() lands here. It must never return. */
 void __assert_fail(const char *expr, const char *file, unsigned int line, const char *func)
 {
 	const char *base = strrchr(file, '/');
 	snprintf(vx_fault_msg, sizeof(vx_fault_msg), "assert(%s) in %s [%s]", expr, func ? func : "?", base ? base + 1 : file);
 	(void)line;
+	if (vx_fault_hook) { vx_fault_kind = VX_FAULT_ASSERT; vx_fault_hook(); }
 	if (vx_armed) { vx_fault_kind = VX_FAULT_ASSERT; siglongjmp(vx_jb, 1); }
 	fprintf(stderr, "vx: unexpected assertion outside VX_TRY: %s (%s:%u)\n", vx_fault_msg, file, line);
 	_exit(4);
@@ -335,6 +340,12 @@ void __assert_fail(const char *expr, const char *file, unsigned int line, const 
 static void vx_sighandler(int sig, siginfo_t *si, void *uc)
 {
 	(void)uc;
+	if (vx_fault_hook) {
+		vx_fault_kind = sig; vx_fault_addr = si ? si->si_addr : NULL;
+		snprintf(vx_fault_msg, sizeof(vx_fault_msg), "signal %d (%s)", sig,
+			 sig == SIGSEGV ? "SIGSEGV" : sig == SIGFPE ? "SIGFPE" : sig == SIGBUS ? "SIGBUS" : "SIGABRT");
+		vx_fault_hook();
+	}
 	if (vx_armed) {
 		vx_fault_kind = sig; vx_fault_addr = si ? si->si_addr : NULL;
 		snprintf(vx_fault_msg, sizeof(vx_fault_msg), "signal %d (%s)", sig,
